@@ -42,6 +42,20 @@ Theorem C13_never_stale_inv : forall H h w, Inv H w -> Ticks H w h ->
 Proof. exact never_stale_from. Qed.
 Print Assumptions C13_never_stale_inv.
 
+(* A writer striking DURING a staging query - after a file was read for hashing, before state.save_many
+   records the rows (op QGetHashesW: the model saves the row under the token observed at WALK time, as
+   _get_hashes does; Model/StateDb.v: get_hashes_during AtWalk).  The world it leaves is the world of
+   "query, then write"; the invariant holds in it; every later answer of every route along every
+   continuation satisfying Ticks is right.  (Proofs/StateDbProofs.v: ex_savetime_refuted shows that a row
+   keyed by a stat taken at SAVE time would be served as a stale hit by the very next lookup.) *)
+Theorem C13_inquery_write_safe : forall H w local ps alg infos wp b t,
+  Inv H w -> tick_ok H w (QGetHashesW local ps alg infos wp b t) ->
+  let w' := fst (step H w (QGetHashesW local ps alg infos wp b t)) in
+  w' = exec H w [QGetHashes local ps alg infos; Write wp b t] /\ Inv H w' /\
+  forall h, Ticks H w' h -> Forall (fun wo => out_ok H (fst wo) (snd wo)) (run H w' h).
+Proof. exact inquery_write_safe. Qed.
+Print Assumptions C13_inquery_write_safe.
+
 (* the executable hypothesis the correspondence evaluates on real histories implies the Prop one *)
 Theorem C13_ticks_b_sound : forall H h w, ticks_b H w h = true -> Ticks H w h.
 Proof. exact ticks_b_sound. Qed.
